@@ -18,7 +18,8 @@ EXPLANATION = (
 DECIDED = ["R20a field agreement serialize / deserialize / serialized_size (TABLE, every impl)",
            "R20b enum tag agreement (TABLE)",
            "R20c length-prefixed impls: prefix = len(), size = prefix + payload",
-           "R20d derive generators iterate the same sequence (SIBLING)"]
+           "R20d derive generators iterate the same sequence (SIBLING)",
+           "R20e decoders accept the empty remainder (no `offset >= len` rejection in front of a range-from slice)"]
 UNDECIDED = ["value equality after the round trip (needs execution)",
              "lossless-ness of the textual detours (PathBuf via to_string_lossy, SocketAddr/IpAddr via Display/FromStr)",
              "size_of::<T>() of all-u64 structs is assumed to be the sum of the field sizes (no padding)"]
@@ -1415,6 +1416,60 @@ HAND = {
 }
 
 
+def empty_remainder_rule(ctx, rule="R20e"):
+    """A decoder that continues with `&buffer[offset..]` / `buffer.get(offset..)` must accept offset == len: the remainder
+    is then empty, which is exactly right for a field that serializes to zero bytes (unit / empty struct, empty tuple).
+    `if offset >= buffer.len() { return Err }` in front of a range-from slice rejects a value its own serialize wrote."""
+    from rules import panic_common as pc
+    fa = ctx.facts
+    n = 0
+    for b in sorted(fa.bodies.values(), key=lambda x: x.path):
+        if b.d.get("name") != "deserialize" or not (b.d.get("impl_trait") or "").endswith(("serialize::Serialize", "AgdbSerialize")):
+            continue
+        n += 1
+        lens = [t["d"][0] for i, t in cfg.calls(b) if (cfg.callee(t) or "").endswith("::len") and t["a"] and
+                (cfg.op_origin(b, t["a"][0]) or (0,))[0] == 1]
+        if not lens:
+            continue
+        der = cfg.derived_locals(b, lens)
+        okb, errb, unk = cfg.ret_class_blocks(b)
+        starts = []
+        for i, t in cfg.calls(b):
+            nme = cfg.callee_decl(t) or cfg.callee(t) or ""
+            if nme.endswith(("Index::index", "::get")) and len(t["a"]) > 1 and (cfg.op_origin(b, t["a"][0]) or (0,))[0] == 1:
+                rp = pc.range_parts(b, t["a"][1])
+                if rp and rp[0] == "RangeFrom":
+                    o = cfg.op_origin(b, rp[1][0])
+                    if o:
+                        starts.append(o[0])
+                    pl = cfg.op_place(rp[1][0])
+                    if pl:
+                        starts += list(cfg.derived_locals(b, [pl[0]]))
+        for bi, st in cfg.assigns(b):
+            r = st["r"]
+            if r["k"] != "bin" or r["op"] not in ("Ge", "Le") or len(st["l"]) != 1:
+                continue
+            pa, pb_ = cfg.op_place(r["a"]), cfg.op_place(r["b"])
+            la, lb = bool(pa and pa[0] in der), bool(pb_ and pb_[0] in der)
+            if la == lb or (r["op"], la) not in (("Ge", False), ("Le", True)):
+                continue                                    # only `offset >= len` / `len <= offset`
+            other = pb_ if la else pa
+            if other is None:
+                continue
+            oo = cfg.origin(b, other)[0]
+            back = cfg.backward_slice(b, [other[0]])[0]
+            if not (oo in starts or other[0] in starts or any(x in back for x in starts)):
+                continue                                    # the compared value is not the start of a range-from slice
+            for sw in cfg.bool_switches(b, cfg.derived_locals(b, [st["l"][0]])):
+                if cfg.find_path(b, [sw["true_edge"][1]], okb + unk) is None:
+                    ctx.ob(rule, "%s:accepts-empty-remainder" % (b.d.get("impl_self") or b.path), False,
+                           "decoder of `%s` rejects offset == buffer.len() before taking `buffer[offset..]`: a trailing field "
+                           "that serializes to zero bytes (unit / empty struct) cannot be read back" % (b.d.get("impl_self") or b.path),
+                           b.loc(bi))
+    ctx.ob(rule, "decoders-scanned", n > 0, "%d Serialize::deserialize bodies scanned for `offset >= len` in front of a range-from slice" % n, "")
+    ctx.floor(rule, "Serialize::deserialize bodies", n, 60)
+
+
 def run(ctx):
     fa = ctx.facts
     st = Static(fa)
@@ -1474,4 +1529,5 @@ def run(ctx):
     ctx.ob("R20a", "hand-written:inventory", not missing, "all %d frozen hand-written impls present" % len(HAND) if not missing else
            "hand-written impls disappeared: %s" % missing)
     derive_rule(ctx)
+    empty_remainder_rule(ctx)
     return 0
